@@ -53,6 +53,17 @@ PROPS = {
         "aspects": TRACE,
         "assumptions": [RAYON],
     },
+    "C06": {
+        "statement": "Shred.SysData: fetch_borrows_exactly / fetch_write_excl / fetch_read_shared / fetch_nothing_else (a fetched value holds, as a multiset, one shared guard per present resource occurrence in reads(), one exclusive per occurrence in writes(), nothing else), fetch_fail_iff / fetch_panic_sound / fetch_fail_releases, drop_releases, reads_concat / writes_concat / setup_comp / fetch_comp (tuples and derived structs concatenate / compose their members in order), setup_preserves / setup_creates / setup_then_fetch - for every SD tree (Read/Write with any handler, Option forms, (), PhantomData, tuples, derived structs, nested)",
+        "engines": [{"engine": "sysdata", "args": {},
+                     "quick": {"exhaust-upto": 8, "samples": 24, "pre-samples": 12},
+                     "thorough": {"exhaust-upto": 12, "samples": 1200, "pre-samples": 600},
+                     "search": {"exhaust-upto": 10, "samples": 200, "pre-samples": 100}}],
+        "aspects": ["*"],
+        "assumptions": [CELL, TYPES,
+                        "parametricity: a generic tuple impl cannot treat a member differently according to its concrete type (so one tuple per arity and position pattern stands for all member types)",
+                        "the correspondence covers the 230 registered types (harness/src/engines/sysdata.rs), 32 resource types and four user setup handlers; the theorems cover every SD tree and every handler environment"],
+    },
     "C05": {
         "statement": "Scenario.C05_schedule_independence: every trace of the parallel plan has the effect of the sequential trace, given that events of non-conflicting systems commute",
         "engines": [trace("flat,base,batch,tl", quick=80, rounds=4), trace("flat,base,batch", quick=30, nopar=True)],
